@@ -47,3 +47,9 @@ Print Assumptions C09_shared_ghost_stale_but_solve_fresh.
 (* non-vacuity *)
 Example C09_nonvacuous : ops_ok (init_with 1 2 2) (EditBC 0 3 4 :: Solve 0 5 :: Copy 0 :: EditVal 1 6 :: Arith 1 7 :: ApplyBCs 1 :: nil) = true.
 Proof. vm_compute. reflexivity. Qed.
+
+(* after the explicit solver the ghost cells of its input and of its result are up to date in EVERY heap, shared objects included *)
+Theorem C09_explicit_refreshes_input : forall uc h i ver, i < nv h -> wf h ->
+  ghost_fresh (step uc h (SolveExplicit i ver)) i = true /\ ghost_fresh (step uc h (SolveExplicit i ver)) (nv h) = true.
+Proof. exact explicit_refreshes_input. Qed.
+Print Assumptions C09_explicit_refreshes_input.
